@@ -249,10 +249,71 @@ def _tail_returns_only(body) -> bool:
 
 
 # --------------------------------------------------------------------------
+def method_values_to_calls(fn):
+    """in place: a local that only ever holds a method of the receiver (`send = self._via_a` / `send = self._via_b` on
+    the branches of a decision) and is then called - `return send(x)` - is a dispatch; the call statement becomes
+
+        if send == self._via_a: return self._via_a(x)
+        else:                   return self._via_b(x)
+
+    so that the helpers can be inlined and every path still makes exactly one of the calls"""
+    binds = {}
+    other = set()
+    for st in ast.walk(fn):
+        if isinstance(st, ast.Assign) and len(st.targets) == 1 and isinstance(st.targets[0], ast.Name):
+            v = st.value
+            if isinstance(v, ast.Attribute) and isinstance(v.value, ast.Name) and v.value.id in ("self", "cls") and v.attr.startswith("_") and not v.attr.startswith("__"):
+                binds.setdefault(st.targets[0].id, []).append(v)
+            else:
+                other.add(st.targets[0].id)
+        elif isinstance(st, (ast.AugAssign, ast.AnnAssign)) and isinstance(st.target, ast.Name):
+            other.add(st.target.id)
+    names = {n for n, vs in binds.items() if n not in other and len({ast.unparse(v) for v in vs}) >= 1}
+    if not names:
+        return fn
+
+    def rewrite(stmts):
+        out = []
+        for st in stmts:
+            for fld in ("body", "orelse", "finalbody"):
+                sub = getattr(st, fld, None)
+                if isinstance(sub, list) and sub and isinstance(sub[0], ast.stmt) and not isinstance(st, (ast.FunctionDef, ast.ClassDef)):
+                    setattr(st, fld, rewrite(sub))
+            for h in getattr(st, "handlers", []) or []:
+                h.body = rewrite(h.body)
+            call = None
+            if isinstance(st, (ast.Return, ast.Expr, ast.Assign)) and isinstance(getattr(st, "value", None), ast.Call):
+                call = st.value
+            if call is not None and isinstance(call.func, ast.Name) and call.func.id in names:
+                nm = call.func.id
+                alts = []
+                for v in binds[nm]:
+                    if ast.unparse(v) not in [ast.unparse(a) for a in alts]:
+                        alts.append(v)
+                chain = None
+                for v in reversed(alts):
+                    s2 = ast.parse(ast.unparse(st)).body[0]
+                    s2.value.func = ast.parse(ast.unparse(v), mode="eval").body
+                    ast.copy_location(s2, st)
+                    if chain is None:
+                        chain = [s2]
+                    else:
+                        test = ast.parse(f"{nm} == {ast.unparse(v)}", mode="eval").body
+                        chain = [ast.copy_location(ast.If(test=test, body=[s2], orelse=chain), st)]
+                out.extend(chain)
+            else:
+                out.append(st)
+        return out
+
+    fn.body = rewrite(fn.body)
+    ast.fix_missing_locations(fn)
+    return _set_parents(fn)
+
+
 def inline(fn, resolver: Callable[[ast.Call], Optional[Tuple[ast.FunctionDef, Optional[str]]]], depth: int = 2, keep: Callable[[str], bool] = None):
     """copy of fn with eligible helper calls inlined.  resolver(call) -> (helper FunctionDef, receiver name or None).
     `keep(name)` may veto inlining of a helper (rules that look the helper up by name keep it as a call)."""
-    new = copy_fn(fn)
+    new = method_values_to_calls(copy_fn(fn))
     for _ in range(depth):
         changed = _inline_once(new, resolver, keep)
         if not changed:
